@@ -8,6 +8,10 @@ NOTES = ("Model-based verification with explicit TLA+ specifications (specs/). E
 NOT_APPLICABLE = {}
 TRUST = "TLC and the Json community module; the renderer/tokeniser glue in lib/pp.py; the hook lines in /repo; bounded universes as stated in the evidence file"
 CHECKS = {
+ "C05": {"level": "model_checking", "design_ref": "DESIGN.md 4.2, 5 (C05), Appendix A.3-A.5",
+         "technique": "TLA+ spec Preproc (macro binding/substitution/pasting/rescan as a frame-stack machine) model-checked against a big-step IEEE 22.5.1 reference with TLC; TLC-exported define/usage programs and seeded larger ones replayed into the real preprocessor; traces validated by TLC (Preproc_Trace)",
+         "text": "Every (formal list, body over a 10-token alphabet up to the stated length, argument list, redefinition) of the universe is model-checked (machine = big-step reference, surrounding text preserved) and replayed into the real preprocessor; seeded larger programs (up to 5 formals, nested brackets/strings/usages in actuals, nesting depth 3) are validated by the same trace specification: token sequence after pasting, error variant and payload, define table, origins. Known finding D2 is attributed through an exact deviation of the specification.",
+         "note": TRUST},
  "C04": {"level": "model_checking", "design_ref": "DESIGN.md 4.2, 5 (C04)",
          "technique": "TLA+ spec Preproc (conditional-compilation machine) model-checked against a declarative IEEE 22.6 reference with TLC; TLC-exported programs replayed into the real preprocessor; traces validated by TLC (Preproc_Trace)",
          "text": "All well-nested conditional programs up to the stated size over names {A,B,__LINE__/__FILE__} x initial define tables are (a) model-checked: stack machine = declarative reference, dead code inert; (b) exported by TLC, rendered and executed by the real preprocessor, and every run's tokens, origins, returned table and error are validated by TLC against the spec. Exhaustive within the bound, nothing beyond it.",
